@@ -42,7 +42,8 @@ Inductive case :=
 | Recv (cs : list bytes)
 | RecvFamily (lim : nat) (s : bytes)
 | Send (orig : bool) (items : box)
-| Arg (t : ty) (v : val).
+| Arg (t : ty) (v : val)
+| SendSeq (bs : list box).        (* sendBox called with each box in turn on one connection; then everything written is received *)
 
 Definition run_case (c : case) : string :=
   match c with
@@ -53,6 +54,10 @@ Definition run_case (c : case) : string :=
       | Some b => "OK:" ++ show_hex b
       | None => "ERR"
       end
+  | SendSeq bs =>
+      let calls := map (fun b => match serialize b with Some w => "OK:" ++ show_hex w | None => "ERR:" end) bs in
+      let wire := List.concat (map (fun b => match serialize b with Some w => w | None => [] end) bs) in
+      String.concat " " calls ++ " => " ++ show_recv (run amp_feed amp_init [wire])
   | Arg t v =>
       match enc t v with
       | None => "ERR"
